@@ -187,6 +187,10 @@ class Unsigned(BitVector):
             rhs = -(rhs % 2**self.width)
 
         else:
+            if isinstance(rhs, Unsigned):
+                # zero-extend to the result width before negating
+                rhs = Unsigned[max(self.width, rhs.width, target_width or 0)](rhs)
+
             rhs = -rhs
 
         return self.add(rhs, target_width)
